@@ -11,6 +11,7 @@
 //! for the Coq models `Conc/ScopeModel.v`, `Conc/RoLockModel.v`, `Conc/WritersModel.v`,
 //! `UF/ConcModel.v` (`check_case`).
 #![allow(clippy::too_many_arguments, clippy::type_complexity, clippy::needless_range_loop)]
+#![allow(unexpected_cfgs)]
 use egglog_concurrency::{ConcurrentVec, NotificationList, ParallelVecWriter, ReadOptimizedLock, Scope, ThreadPool};
 use egglog_numeric_id::{define_id, NumericId};
 use egglog_union_find::concurrent::UnionFind;
@@ -23,6 +24,59 @@ use std::sync::{mpsc, Arc, Mutex};
 use std::time::{Duration, Instant};
 use verif_harness::util::*;
 use verif_harness::Opts;
+
+/// Allocator of this harness binary: the system allocator, except that GROWING a block of >= 4 KiB
+/// always moves it (which `realloc` is free to do at any time) and the old block is parked in a
+/// small quarantine before it is really freed. Correct code cannot tell the difference; code that
+/// writes through a stale buffer pointer (e.g. a `ParallelVecWriter` copy that does not hold its
+/// read guard while a concurrent `reserve_space` grows the vector) then loses its data
+/// deterministically - reported as "chunk not in the final vector" - instead of corrupting the heap
+/// or crashing only when the C library happens to move the block.
+struct MovingRealloc;
+const QUARANTINE_SLOTS: usize = 32;
+const MOVE_MIN: usize = 4096;
+static QUARANTINE: Mutex<([(usize, usize, usize); QUARANTINE_SLOTS], usize)> = Mutex::new(([(0, 0, 0); QUARANTINE_SLOTS], 0));
+static MOVED_REALLOCS: AtomicUsize = AtomicUsize::new(0);
+// SAFETY: defers to `System` for every allocation and deallocation; `realloc` follows the documented
+// contract (the new block holds the old contents up to the smaller of the two sizes).
+unsafe impl std::alloc::GlobalAlloc for MovingRealloc {
+    unsafe fn alloc(&self, l: std::alloc::Layout) -> *mut u8 {
+        unsafe { std::alloc::System.alloc(l) }
+    }
+    unsafe fn dealloc(&self, p: *mut u8, l: std::alloc::Layout) {
+        unsafe { std::alloc::System.dealloc(p, l) }
+    }
+    unsafe fn alloc_zeroed(&self, l: std::alloc::Layout) -> *mut u8 {
+        unsafe { std::alloc::System.alloc_zeroed(l) }
+    }
+    unsafe fn realloc(&self, ptr: *mut u8, layout: std::alloc::Layout, new_size: usize) -> *mut u8 {
+        use std::alloc::{Layout, System};
+        if layout.size() < MOVE_MIN || new_size <= layout.size() {
+            return unsafe { System.realloc(ptr, layout, new_size) };
+        }
+        let Ok(nl) = Layout::from_size_align(new_size, layout.align()) else {
+            return std::ptr::null_mut();
+        };
+        let np = unsafe { System.alloc(nl) };
+        if np.is_null() {
+            return np;
+        }
+        unsafe { std::ptr::copy_nonoverlapping(ptr, np, layout.size()) };
+        MOVED_REALLOCS.fetch_add(1, SeqCst);
+        let ev = {
+            let mut q = QUARANTINE.lock().unwrap_or_else(|e| e.into_inner());
+            let slot = q.1 % QUARANTINE_SLOTS;
+            q.1 += 1;
+            std::mem::replace(&mut q.0[slot], (ptr as usize, layout.size(), layout.align()))
+        };
+        if ev.0 != 0 {
+            unsafe { System.dealloc(ev.0 as *mut u8, Layout::from_size_align_unchecked(ev.1, ev.2)) };
+        }
+        np
+    }
+}
+#[global_allocator]
+static HARNESS_ALLOC: MovingRealloc = MovingRealloc;
 
 define_id!(pub UId, u32, "union-find id of the harness");
 define_id!(pub NId, u32, "notification-list id of the harness");
@@ -1329,10 +1383,24 @@ enum VecScen {
     Pvw { init_len: usize, calls: Vec<Vec<PvwCall>>, readers: usize },
     Cv { cap: usize, counts: Vec<usize>, readers: usize },
     Nl { rounds: Vec<Vec<Vec<usize>>> },
+    /// growth DURING copies: tiny initial vector, many large write_slice / write_cell_slice calls
+    PvwBig { threads: usize, writes: usize, chunk: usize, cell: bool, rounds: usize, perturb: u64 },
 }
 fn gen_vec(seed: u64, idx: u64) -> VecScen {
     let mut r = Rng::for_case(seed, BASE_VEC + idx);
     let sel = idx % 5;
+    if idx % 10 == 7 {
+        // every 10th scenario: the buffer is re-allocated (and, with this binary's allocator, moved)
+        // many times while other threads are in the middle of copying their chunks
+        return VecScen::PvwBig {
+            threads: r.range(6, 8),
+            writes: r.range(8, 14),
+            chunk: r.range(1024, 2048),
+            cell: r.chance(1, 3),
+            rounds: 8,
+            perturb: if r.chance(1, 2) { 1 + r.next() % 1_000_000 } else { 0 },
+        };
+    }
     if sel <= 2 {
         let init_len = r.below(21);
         let nt = r.range(2, 8);
@@ -1590,6 +1658,113 @@ fn run_vec_scenario(sc: &VecScen, prog: Arc<AtomicU64>) -> VecOut {
                 coq_list(&fin, |x| (*x).min(4999).to_string())
             ));
         }
+        VecScen::PvwBig { threads, writes, chunk, cell, rounds, perturb } => {
+            #[cfg(egglog_verif)]
+            egglog_concurrency::verif_hooks::PERTURB_SEED.store(*perturb, SeqCst);
+            let _ = perturb;
+            let tag = |rd: usize, t: usize, w: usize, off: usize| -> u64 { 1 + (((rd as u64) << 48) | ((t as u64) << 40) | ((w as u64) << 24) | off as u64) };
+            let mut max_len = 0usize;
+            for rd in 0..*rounds {
+                let barrier = Barrier::new(*threads);
+                let prefix: Vec<u64> = (0..3).map(|i| tag(rd, 255, 0, i)).collect();
+                // (chunk length, returned starts) per thread, and the final vector as plain u64
+                let (res, fin): (Vec<(usize, Vec<usize>)>, Vec<u64>) = if !*cell {
+                    let pvw = ParallelVecWriter::new(prefix.clone());
+                    let res = std::thread::scope(|ts| {
+                        let hs: Vec<_> = (0..*threads)
+                            .map(|t| {
+                                let (pvw, barrier, tag) = (&pvw, &barrier, &tag);
+                                ts.spawn(move || {
+                                    let len = *chunk + t * 7;
+                                    let mut buf = vec![0u64; len];
+                                    let mut st = Vec::with_capacity(*writes);
+                                    barrier.wait();
+                                    for w in 0..*writes {
+                                        for (o, s) in buf.iter_mut().enumerate() {
+                                            *s = tag(rd, t, w, o);
+                                        }
+                                        st.push(pvw.write_slice(&buf));
+                                        prog.fetch_add(1, SeqCst);
+                                    }
+                                    (len, st)
+                                })
+                            })
+                            .collect();
+                        hs.into_iter().map(|h| h.join().unwrap_or((0, vec![]))).collect::<Vec<_>>()
+                    });
+                    (res, pvw.finish())
+                } else {
+                    let pvw = ParallelVecWriter::new(prefix.iter().map(|x| std::cell::Cell::new(*x)).collect::<Vec<_>>());
+                    let res = std::thread::scope(|ts| {
+                        let hs: Vec<_> = (0..*threads)
+                            .map(|t| {
+                                let (pvw, barrier, tag) = (&pvw, &barrier, &tag);
+                                ts.spawn(move || {
+                                    let len = *chunk + t * 7;
+                                    let mut st = Vec::with_capacity(*writes);
+                                    barrier.wait();
+                                    for w in 0..*writes {
+                                        let buf: Vec<std::cell::Cell<u64>> = (0..len).map(|o| std::cell::Cell::new(tag(rd, t, w, o))).collect();
+                                        st.push(egglog_concurrency::parallel_writer::write_cell_slice(pvw, &buf));
+                                        prog.fetch_add(1, SeqCst);
+                                    }
+                                    (len, st)
+                                })
+                            })
+                            .collect();
+                        hs.into_iter().map(|h| h.join().unwrap_or((0, vec![]))).collect::<Vec<_>>()
+                    });
+                    (res, pvw.finish().into_iter().map(|c| c.get()).collect())
+                };
+                let api = if *cell { "write_cell_slice" } else { "write_slice" };
+                let expected: usize = 3 + res.iter().map(|(len, st)| len * st.len()).sum::<usize>();
+                if res.iter().any(|(_, st)| st.len() != *writes) {
+                    v(format!("round {rd}: a writer thread did not complete its {writes} {api} calls"), "vec-pvw-lost");
+                }
+                if fin.len() != expected {
+                    v(format!("round {rd}: finish() has length {}, expected 3 initial + {} written", fin.len(), expected - 3), "vec-pvw-len");
+                }
+                if fin.len() < 3 || fin[..3] != prefix[..] {
+                    v(format!("round {rd}: the initial prefix is not intact after concurrent growth"), "vec-pvw-prefix");
+                }
+                let mut bad = 0usize;
+                let mut first = String::new();
+                for (t, (len, st)) in res.iter().enumerate() {
+                    for (w, s) in st.iter().enumerate() {
+                        let wrong = match fin.get(*s..*s + *len) {
+                            Some(g) => g.iter().enumerate().filter(|(o, x)| **x != tag(rd, t, w, *o)).count(),
+                            None => *len,
+                        };
+                        if wrong != 0 {
+                            bad += 1;
+                            if first.is_empty() {
+                                first = format!("thread {t} {api} #{w} returned start {s}: {wrong} of {len} elements are not there in the vector returned by finish()");
+                            }
+                        }
+                    }
+                }
+                if bad != 0 {
+                    v(format!("round {rd}: {bad} of {} chunks written while the vector was growing are lost or damaged; first: {first}", threads * writes), "vec-pvw-items");
+                }
+                // ranges must tile [3, len)
+                let mut rs: Vec<(usize, usize)> = res.iter().flat_map(|(len, st)| st.iter().map(move |s| (*s, *len))).collect();
+                rs.sort_unstable();
+                let mut cur = 3usize;
+                for (s, len) in rs {
+                    if s != cur {
+                        v(format!("round {rd}: reserved ranges do not tile: a chunk of {len} starts at {s}, previous range ends at {cur}"), "vec-pvw-overlap");
+                        break;
+                    }
+                    cur += len;
+                }
+                max_len = max_len.max(fin.len());
+            }
+            #[cfg(egglog_verif)]
+            egglog_concurrency::verif_hooks::PERTURB_SEED.store(0, SeqCst);
+            out.threads = *threads;
+            out.total_len = max_len;
+            out.realloc = true;
+        }
         VecScen::Nl { rounds } => {
             let nl: NotificationList<NId> = NotificationList::default();
             let mut maxid = 0usize;
@@ -1634,7 +1809,7 @@ fn run_vec_scenario(sc: &VecScen, prog: Arc<AtomicU64>) -> VecOut {
 fn sub_vec(o: &Opts) -> SubRep {
     let t0 = Instant::now();
     let mut rep = SubRep::new("vec");
-    rep.rule = "(a) ParallelVecWriter over a seeded initial vector of exact capacity: 2..8 threads x 1..6 write_contents/write_slice calls of 0..12 unique items, concurrent read_access/with_index/with_slice readers and unsafe read-back of own writes; (b) ConcurrentVec::with_capacity(1|2): 2..6 pushing threads + prefix readers; (c) NotificationList: concurrent notify of dense ids, reset at quiescence (predicate only). case = (init, [(returned start, items)] sorted by start, final vector); non-trivial iff >= 2 writer threads and the total length exceeds the initial capacity (a reallocation under the lock happened); distinct by the generated scenario".into();
+    rep.rule = "(a) ParallelVecWriter over a seeded initial vector of exact capacity: 2..8 threads x 1..6 write_contents/write_slice calls of 0..12 unique items, concurrent read_access/with_index/with_slice readers and unsafe read-back of own writes; (b) ConcurrentVec::with_capacity(1|2): 2..6 pushing threads + prefix readers; (c) NotificationList: concurrent notify of dense ids, reset at quiescence (predicate only); (d) every 10th scenario: growth DURING copies - a 3-element ParallelVecWriter, 6..8 threads released by a barrier, each 8..14 write_slice (or write_cell_slice) calls of 1024..2048(+7t) tagged u64, 8 rounds, half of them with the H5 perturbation seeded; every chunk verified at its returned offset after finish() (predicate only, no Coq case); this binary's global allocator moves every growing block >= 4 KiB and quarantines the old one. case = (init, [(returned start, items)] sorted by start, final vector); non-trivial iff >= 2 writer threads and the total length exceeds the initial capacity (a reallocation under the lock happened); distinct by the generated scenario".into();
     let header = "From Coq Require Import List NArith.\nImport ListNotations.\nRequire Import Verif.Base.Cases Verif.Conc.WritersModel.\n";
     let mut w = CaseWriter::new(&o.out, "cases_vec", header, "check_case", 50);
     let plan = make_plan(o, "vec", if o.thorough { 3000 } else { 150 });
@@ -1645,6 +1820,7 @@ fn sub_vec(o: &Opts) -> SubRep {
             VecScen::Pvw { .. } => "parallel_vec_writer",
             VecScen::Cv { .. } => "concurrent_vec",
             VecScen::Nl { .. } => "notification_list",
+            VecScen::PvwBig { .. } => "parallel_vec_writer_growth_during_copy",
         };
         let input = json!({"sub": "vec", "seed": seed, "index": idx, "kind": kind});
         write_progress(o, "vec", &input);
